@@ -230,6 +230,30 @@ def run(tier, replay=None):
         if desc:
             ck.violation("script shape %s with n=%d: %s" % (shape, n, desc), {"shape": shape, "n": n, "real": [{k: o.get(k) for k in ("kind", "msg", "err", "phase", "site", "val")} for o in res[-3:]]})
         ck.part("script %s n=%d" % (shape, n), outcome="worked" if worked else ("refused" if refused else "other"), must_work=v["work"], must_refuse=v["refuse"], overflows_in_the_current_compiler=v["overflows"])
+    # ---- sessions of any length through the real read-eval loop: code and constants of earlier statements stay where functions bound by
+    # them expect them, whatever happened to the statement that bound them (it failed half-way, it was refused, it was a parse error)
+    mid = {"runtime error": "boom = 1 / 0", "refused": "f = (a) -> " + "+".join("a" for _ in range(33000)), "parse error": "x = )"}     # one line each (the loop lexes the pending input again for every line)
+    lsess, lid = [], 0
+    for mname, bad in mid.items():
+        for doout in (True, False):
+            lid += 1
+            lines = ["{", "inc = (x) -> x + 1", "keep = [(x) -> x + 2]"] + (bad.split("\n") if mname == "runtime error" else ["t = 0"]) + ["}"]
+            if mname != "runtime error":
+                lines += bad.split("\n")
+            lines += ["dbl = (x) -> x * 100", "neg = (x) -> 0 - x", 'write("R:" + toa(inc(1)) + ":" + toa(dbl(2)) + ":" + toa(neg(3)) + "\n")', "k = keep[0]", 'write("R:" + toa(k(1)) + "\n")']
+            lsess.append({"id": lid, "lines": lines, "doout": doout, "stdin": [], "meta": mname})
+    lres = vlib.run_loop([{k: v for k, v in x.items() if k != "meta"} for x in lsess], timeout=1800)
+    for x in lsess:
+        r = lres.get(x["id"]) or {}
+        ck.cov["evaluations"] += 1
+        ck.cov["traces_validated_against_impl"] += 1
+        got = [l for l in (r.get("out") or "").split("\n") if l.startswith("R:")]
+        want = ["R:2:200:-3", "R:3"]
+        if r.get("kind") != "ok" or got != want:
+            ck.violation("a session through the read-eval loop (%s, after a statement that ended in a %s): functions bound earlier give %s, expected %s%s" % (
+                "REPL's way" if x["doout"] else "file mode", x["meta"], got, want, "" if r.get("kind") == "ok" else " (the loop ended with %s %s)" % (r.get("kind"), r.get("msg"))),
+                {"loop_session": {"lines": x["lines"][:12], "doout": x["doout"]}, "kind": r.get("kind")})
+    ck.part("sessions through the read-eval loop after failed / refused / unparsable statements", sessions=len(lsess))
     ck.cov["exhaustive"] = True
     ck.cov["rule"] = ("vectors: opcodes x selector x 8 kinds x addresses around 0, +-2^15, +-2^16 x a second operand in another field; function values at the field boundaries; "
                       "non-trivial = address within 3 of a field boundary or a function value.  Scripts: n global assignments / a function with n locals / a function and an if whose bodies "
